@@ -8,4 +8,8 @@ if [ ! -x bin/verifchk ] || [ -n "$(find checker -newer bin/verifchk -name '*.go
   mkdir -p bin
   (cd checker && go build -o ../bin/verifchk .) || { echo "cannot build checker"; exit 2; }
 fi
+if [ "$TIER" = thorough ]; then
+  # checker self-test for this property (tests the checker, not /repo; recorded in the evidence, never changes the exit status)
+  mkdir -p selftest; python3 tools/selftest.py prop "$PROP" > "selftest/log-$PROP.txt" 2>&1 || true
+fi
 exec ./bin/verifchk -prop "$PROP" -tier "$TIER" -repo "${VERIF_REPO:-/repo}" -verif "$(pwd)"
